@@ -196,7 +196,7 @@ func build(sw *sim.World) {
 	sw.Notef("W-RADIO: %d devices, faults=%v", w.nDev, w.faults)
 	for i := 0; i < w.nDev; i++ {
 		i := i
-		n := 3 + simrt.Choose(20)
+		n := 3 + simrt.Choose(20*sim.Scale)
 		sub := simrt.Raw()
 		sw.Spawn(fmt.Sprintf("dev%d", i), func() { device(w, i, n, sub) })
 	}
